@@ -387,8 +387,9 @@ class _DesignClient:
         text = U.write_yaml(tree)
         if via == "text":
             return text if (": " in text or "\n" in text) else tree
-        self.nfile += 1
-        p = "c%d_%s_%d.yaml" % (self.cid, stem, self.nfile)
+        # a flow that handles several designs reuses its scratch file names: every client writes its document under the
+        # same name just before loading it
+        p = self.fs.path("%s.yaml" % stem)
         self.fs.put(p, text)
         return p
 
@@ -505,7 +506,10 @@ class _DesignClient:
             if s.is_strop:
                 for inst in s.instances():
                     insts.append(sorted((r.rows.low, r.rows.high, r.columns.low, r.columns.high) for r in inst.rectangles()))
-            return {"is_strop": s.is_strop, "instances": insts}
+            def _val(x):
+                return x() if callable(x) else x
+            return {"is_strop": s.is_strop, "instances": insts, "widths": list(_val(s.get_width)), "rows": _val(s.num_rows),
+                    "cols": _val(s.num_columns)}
         raise ValueError(k)
 
     def _verdicts(self):
@@ -573,12 +577,11 @@ def _exec(arg):
     """Executes the schedule (or one client's part of it).  Returns per scheduled step a record or None."""
     case, only, force = arg
     root = os.path.abspath(os.environ.get("FRAME_REPO", "/repo")) + os.sep
-    fs = SimFS()
+    scratch = tempfile.mkdtemp(prefix="frame-verif-", dir=os.environ.get("VERIF_SCRATCH") or ("/dev/shm" if os.path.isdir("/dev/shm") else None))
+    tempfile.tempdir = scratch
+    os.makedirs(os.path.join(scratch, "fs"))
+    fs = SimFS(mirror=os.path.join(scratch, "fs"))
     _m["U"].open = fs.open
-    scratch = None
-    if any(o["op"] == "legal_model" for c in case["clients"] for o in c["ops"]):
-        scratch = tempfile.mkdtemp(prefix="frame-verif-", dir="/dev/shm" if os.path.isdir("/dev/shm") else None)
-        tempfile.tempdir = scratch
     clients = {}
     out = []
     fault_at = {f["at"]: f for f in case["faults"]} if only is None else {}
